@@ -14,7 +14,7 @@ DESCRIPTION = {
              "Oracle = independent verifiers: hashlib.pbkdf2_hmac + hmac (CRA), RFC 4226/6238 reference from hmac/struct + the RFC vectors (TOTP), RFC 5802 "
              "verification (recover ClientKey from the proof, H(ClientKey)==StoredKey; ServerSignature) with SaltedPassword from hashlib / argon2 raw API (SCRAM), "
              "cryptography's Ed25519 public-key verification over challenge XOR channel-id (cryptosign).  Exhaustive tampering: every single-bit flip of the SCRAM "
-             "server signature (256) must be rejected by on_welcome; every single-bit flip of an Ed25519 signature (512) rejected; altered challenge/key/salt "
+             "server signature (256) must be rejected by on_welcome, as must any WELCOME that was not preceded by a processed CHALLENGE (incl. the signature computable from empty inputs); every single-bit flip of an Ed25519 signature (512) rejected; altered challenge/key/salt "
              "changes the signature.  Non-trivial = non-ASCII secret, boundary length, or a tampered value; distinct by (mechanism, parameter digest)."),
     "assumptions": ["Argon2 costs kept small (time<=3, memory<=64KiB) to keep the search wide", "TOTP clock = autobahn.wamp.auth.time patched to drawn instants"],
 }
@@ -274,6 +274,17 @@ def scram(col, seed, n, kdf, only=None):
             res = a.on_welcome(_Sess(), {"scram_server_signature": base64.b64encode(bad).decode("ascii")})
             if res is None:
                 raise Violation("C19|scram|%s|tampered-server-signature-accepted" % kdf, "altered length/order", case)
+        # a WELCOME that arrives without any CHALLENGE having been processed (a router skipping the exchange) must never be accepted: neither with the
+        # genuine signature of another exchange nor with the value anybody can compute from empty inputs
+        forged = hmac.new(hmac.new(b"", b"Server Key", hashlib.sha256).digest(), b"", hashlib.sha256).digest()
+        for label, sig_ in (("genuine-of-other-exchange", server_sig), ("hmac-of-empty-inputs", forged), ("zeros", b"\x00" * 32)):
+            fresh = auth.AuthScram(authid=c["authid"], password=c["password"])
+            try:
+                res = fresh.on_welcome(_Sess(), {"scram_server_signature": base64.b64encode(sig_).decode("ascii")})
+            except Exception:
+                res = "raised"      # an exception aborts the join: a rejection
+            if res is None:
+                raise Violation("C19|scram|%s|welcome-without-challenge-accepted|%s" % (kdf, label), "on_welcome returned None although no challenge was ever processed", case)
         # alteration of salt / password changes the proof
         a2 = auth.AuthScram(authid=c["authid"], password=c["password"])
         a2._client_nonce = client_nonce
